@@ -17,7 +17,7 @@ from stone.ir import (
 
 from vlib.hx import Skip
 
-B64_CHOICES = ('', 'AP8=', 'YWJj')
+B64_CHOICES = ('', 'AP8=', 'YWJj', 'AQEB' * 20)
 TS_CHOICES = ('2015-05-12T15:50:38Z', '1999-12-31T23:59:59Z')
 MAP_KEYS = ('k', 'kk')
 UNKNOWN_KEY = 'zz'
